@@ -210,4 +210,32 @@ example : ladder argsortIns argsortInsRev hDemo {} wB wA =
     .done 3 ⟨true, [("p", "", .passed), ("c", "TRIANGLE", .passed)]⟩ := by
   decide +kernel
 
+/-! ### the full noise-free canonicity theorem applies to a concrete relabelled pair -/
+
+/-- `wB` stores `wMesh` with the points reversed (`ρ`: new ↦ old) and the two cells exchanged -/
+theorem w_relabeled : Relabeled wMesh wB.mesh [5, 4, 3, 2, 1, 0] where
+  dim := rfl
+  perm := by decide
+  points := by decide +kernel
+  wf := by decide +kernel
+  rows := by decide +kernel
+
+theorem w_pointHyp : pointHyp wTol wMesh = true := by decide +kernel
+theorem wB_pointHyp : pointHyp wTol wB.mesh = true := by decide +kernel
+
+theorem w_cands_same : ∀ x, x ∈ (pointData (sepA wTol) wMesh).cands ↔ x ∈ (pointData (sepA wTol) wB.mesh).cands := by
+  have h : ((pointData (sepA wTol) wMesh).cands.all fun x => (pointData (sepA wTol) wB.mesh).cands.contains x) = true ∧
+      ((pointData (sepA wTol) wB.mesh).cands.all fun x => (pointData (sepA wTol) wMesh).cands.contains x) = true := by
+    decide +kernel
+  simp only [List.all_eq_true, List.contains_eq_mem, decide_eq_true_eq] at h
+  exact fun x => ⟨h.1 x, h.2 x⟩
+
+/-- all hypotheses of `C02_canonical_points` hold for this pair; the conclusion is obtained for the
+    stable argsort on one side and the reversed-tie insertion sort on the other -/
+example : ∃ L1 L2, sortPointsItems argsortStable wTol wMesh = some L1 ∧
+    sortPointsItems argsortInsRev wTol wB.mesh = some L2 ∧
+    L1.map (relabelItem [5, 4, 3, 2, 1, 0]) = L2 ∧ L1.map (·.2) = L2.map (·.2) :=
+  C02_canonical_points isArgsort_stable isArgsort_insRev (C02_hyp_sound w_pointHyp).1
+    (C02_hyp_sound wB_pointHyp).1 w_cands_same w_relabeled (by decide) (C02_hyp_sound w_pointHyp).2
+
 end Fc.C02.Witness
